@@ -38,6 +38,7 @@
 (*                                duplicated or garbled                     *)
 (*   C18/not-fresh/pending        Pending() # 0 right after a handshake     *)
 (*   C18/not-fresh/stale-frame-sent  unsolicited client bytes on the wire   *)
+(*   C18/panic/<where>            the library panicked (handshake | read)   *)
 (*   C18/harness/<what>           malformed trace (never a verdict on code) *)
 EXTENDS Integers, Sequences, FiniteSets
 
@@ -108,7 +109,8 @@ ObsResp(e) ==
 
 ObsResult(e) ==
   LET acc == e.err = "nil" IN
-  IF ~(mstage = "resp" \/ (mstage = "begun" /\ mexp = "rej"))
+  IF e.err = "panic" THEN Fail("C18/panic/handshake")
+  ELSE IF ~(mstage = "resp" \/ (mstage = "begun" /\ mexp = "rej"))
      THEN Fail("C18/harness/result-out-of-order")
   ELSE IF e.cbs # 1 THEN Fail("C18/callback-count")
   ELSE IF acc /\ mexp = "rej" THEN Fail("C18/accepted-wrongly/" \o mwhy)
@@ -129,6 +131,7 @@ ObsMsg(e) ==
 
 ObsEnd(e) ==
   IF mstage \notin {"reading", "failed"} THEN Fail("C18/harness/end-out-of-order")
+  ELSE IF e.err = "panic" THEN Fail("C18/panic/read")
   ELSE IF mstage = "reading" /\ (e.ndeliv # mndel) THEN Fail("C18/harness/end-count")
   ELSE IF mstage = "reading" /\ mndel # mnsent THEN Fail("C18/leftover/" \o mfeat)
   ELSE IF e.cbytes > 0 THEN Fail("C18/not-fresh/stale-frame-sent")
